@@ -630,7 +630,7 @@ impl<'c> Gen<'c> {
         let a = have.unwrap();
         let Kind::KS { loc, bounded, ordered, once } = self.vars[a].kind else { unreachable!() };
         let ks = Kind::KS { loc, bounded, ordered, once };
-        match self.ch.below(14) {
+        match self.ch.below(17) {
             0 => {
                 let f = self.pick(MAP_II);
                 self.new_var(ks, format!("{{0}}.map(q!({f}))"), vec![a]);
@@ -742,6 +742,35 @@ impl<'c> Gen<'c> {
                 self.class("keyed-keys");
                 self.stateful(loc);
                 self.new_var(Kind::S { el: El::I, loc, bounded, ordered: false, once: true }, "{0}.keys()".into(), vec![a]);
+            }
+            13 => {
+                // get(key): key is a bounded singleton / optional i64 at the same location
+                let Some(b) = self.find(|k| match k {
+                    Kind::Sg { v: SV::I, loc: l2, bound: SB::Bounded } => *l2 == loc,
+                    Kind::Op { el: El::I, loc: l2, bounded: true } => *l2 == loc,
+                    _ => false,
+                }) else {
+                    return false;
+                };
+                self.class("keyed-get");
+                self.stateful(loc);
+                self.new_var(Kind::S { el: El::I, loc, bounded, ordered, once }, "{0}.get({1})".into(), vec![a, b]);
+            }
+            14 => {
+                let Some(b) = self.find(|k| matches!(k, Kind::S { el: El::I, loc: l2, bounded: true, .. } if *l2 == loc)) else { return false };
+                self.class("filter_key_not_in");
+                self.stateful(loc);
+                self.new_var(ks, "{0}.filter_key_not_in({1})".into(), vec![a, b]);
+            }
+            15 => {
+                let Some(b) = self.find(|k| matches!(k, Kind::KSg { v: SV::I, loc: l2, bound: KB::Bounded } if *l2 == loc)) else { return false };
+                self.class("join_keyed_singleton");
+                self.stateful(loc);
+                self.new_var(
+                    ks,
+                    "{0}.join_keyed_singleton({1}).map(q!(|(a, b): (i64, i64)| a.wrapping_mul(7).wrapping_add(b)))".into(),
+                    vec![a, b],
+                );
             }
             _ => {
                 // keyed join with another keyed stream at the same location
